@@ -36,10 +36,18 @@ type CapCase struct {
 	// Waves: the inbound burst is repeated after the first wave's surplus
 	// connections were closed by the dialers.
 	Waves int `json:"waves"`
+	// Script: before the bursts, peers arrive and leave one at a time and every
+	// arrival's fate is compared with the model: "in" = a scripted peer dials
+	// (admitted iff fewer than MaxIn inbound peers are connected - outbound peers
+	// do not count), "out" = an explicit Connect to a fresh listener, "drop-in" /
+	// "drop-out" = the oldest such peer hangs up.
+	Script []string `json:"script,omitempty"`
 }
 
 func genCap(t *rapid.T) CapCase {
+	script := rapid.SliceOfN(rapid.SampledFrom([]string{"in", "in", "in", "out", "out", "drop-in", "drop-out"}), 0, 10).Draw(t, "script")
 	return CapCase{
+		Script:    script,
 		MaxIn:     rapid.IntRange(0, 4).Draw(t, "maxin"),
 		MaxOut:    rapid.IntRange(0, 3).Draw(t, "maxout"),
 		NIn:       rapid.IntRange(0, 24).Draw(t, "nin"),
@@ -187,11 +195,20 @@ func runCap(c CapCase, cs *kit.CaseStats) error {
 			d.Close()
 		}
 	}()
+	if err, inconclusive := capScript(c, cs, srv, genesisID, &listeners); err != nil || inconclusive != "" {
+		close(stopSampler)
+		samplerDone.Wait()
+		if inconclusive != "" {
+			cs.Inconclusive(inconclusive)
+			return nil
+		}
+		return err
+	}
 	serial := 0
 	for w := 0; w < c.Waves; w++ {
 		start := make(chan struct{})
 		var wg sync.WaitGroup
-		var okConn atomic.Int64
+		var okConn, dialTimeouts atomic.Int64
 		for i := 0; i < c.NIn; i++ {
 			gp := &p2px.GWPeer{Genesis: genesisID, UniqueID: p2px.DetUniqueID("cap-in", serial), IP: fmt.Sprintf("127.50.%d.%d", 1+i/8, 1+i%8), NetAddress: fmt.Sprintf("127.50.%d.%d:%d", 1+i/8, 1+i%8, 3000+serial)}
 			serial++
@@ -203,6 +220,9 @@ func runCap(c CapCase, cs *kit.CaseStats) error {
 				p2px.Pause(c.StaggerUS * (i % 4))
 				conn, err := gp.Dial(context.Background(), srv.Addr(), 20*time.Second)
 				if err != nil {
+					if ne := net.Error(nil); errors.As(err, &ne) && ne.Timeout() {
+						dialTimeouts.Add(1)
+					}
 					return
 				}
 				okConn.Add(1)
@@ -236,6 +256,37 @@ func runCap(c CapCase, cs *kit.CaseStats) error {
 			close(stopSampler)
 			samplerDone.Wait()
 			return fmt.Errorf("wave %d: %d inbound peers were connected at the same time, MaxInboundPeers is %d (%d simultaneous handshakes, %d completed on the dialers' side)", w, in, c.MaxIn, c.NIn, okConn.Load())
+		}
+		// the other half: slots the limit leaves open are given to peers that ask
+		// for them. Every dial has reached the syncer (the dialers are back), an
+		// arrival is turned away only while MaxInboundPeers inbound peers are
+		// connected, so at rest min(MaxIn, NIn) inbound peers are connected -
+		// whatever the number of outbound peers.
+		if dialTimeouts.Load() == 0 {
+			want, in, out := min(c.MaxIn, c.NIn), 0, 0
+			for deadline := time.Now().Add(10 * time.Second); ; time.Sleep(time.Millisecond) {
+				in, out = 0, 0
+				for _, p := range srv.S.Peers() {
+					if p.Inbound {
+						in++
+					} else {
+						out++
+					}
+				}
+				if in >= want || time.Now().After(deadline) {
+					break
+				}
+			}
+			if in < want {
+				close(stopSampler)
+				samplerDone.Wait()
+				return fmt.Errorf("wave %d: %d peers dialled at the same moment against MaxInboundPeers %d, but only %d inbound peer(s) are connected 10 s after the last dial returned (%d handshakes completed on the dialers' side; %d outbound peer(s) are connected at the same time)", w, c.NIn, c.MaxIn, in, okConn.Load(), out)
+			}
+			if want > 0 && out > 0 {
+				cs.Class("inbound-slots-filled-with-outbound-peers-present")
+			}
+		} else {
+			cs.Class("dial-timeout(admission-not-judged)")
 		}
 		if w+1 < c.Waves {
 			// the dialers of this wave go away; the next wave must find the same cap
@@ -299,9 +350,150 @@ func runCap(c CapCase, cs *kit.CaseStats) error {
 	return nil
 }
 
+// capScript runs CapCase.Script against the model. It returns a violation, or
+// the name of an inconclusive outcome.
+func capScript(c CapCase, cs *kit.CaseStats, srv *p2px.SyncerNode, genesisID types.BlockID, listeners *[]*p2px.GWPeer) (error, string) {
+	type inPeer struct {
+		gp   *p2px.GWPeer
+		conn *p2px.GWConn
+	}
+	var ins []inPeer        // admitted inbound peers, oldest first
+	var outs []*p2px.GWPeer // listeners the syncer is connected out to, oldest first
+	defer func() {
+		for _, p := range ins {
+			p.gp.Close()
+		}
+	}()
+	listed := func(addr string) bool { return srv.HasPeer(addr) }
+	gone := func(addr string) bool {
+		for deadline := time.Now().Add(closeWatchdog); time.Now().Before(deadline); time.Sleep(200 * time.Microsecond) {
+			if !listed(addr) {
+				return true
+			}
+		}
+		return false
+	}
+	counts := func() (in, out int) {
+		for _, p := range srv.S.Peers() {
+			if p.Inbound {
+				in++
+			} else {
+				out++
+			}
+		}
+		return
+	}
+	for k, op := range c.Script {
+		switch op {
+		case "out":
+			gp, err := quietListener(genesisID, p2px.ListenIP(60+k), p2px.DetUniqueID("cap-script-out", k))
+			if err != nil {
+				return fmt.Errorf("INFRA: %v", err), ""
+			}
+			*listeners = append(*listeners, gp)
+			ctx, cancel := context.WithTimeout(context.Background(), 20*time.Second)
+			_, err = srv.S.Connect(ctx, gp.NetAddress)
+			cancel()
+			if err != nil {
+				return nil, "script-connect-failed"
+			}
+			outs = append(outs, gp)
+		case "drop-out":
+			if len(outs) == 0 {
+				continue
+			}
+			gp := outs[0]
+			outs = outs[1:]
+			// (the listener may still be on its way out of Accept: hang up until
+			// the connection is really gone)
+			removed := false
+			for deadline := time.Now().Add(closeWatchdog); !removed && time.Now().Before(deadline); time.Sleep(time.Millisecond) {
+				gp.CloseConns()
+				removed = !listed(gp.NetAddress)
+			}
+			if !removed {
+				return nil, "outbound-peer-not-removed-after-disconnect"
+			}
+		case "drop-in":
+			if len(ins) == 0 {
+				continue
+			}
+			p := ins[0]
+			ins = ins[1:]
+			p.gp.Close()
+			if !gone(p.gp.NetAddress) {
+				return nil, "inbound-peers-not-removed-after-disconnect"
+			}
+		case "in":
+			ip := fmt.Sprintf("127.51.%d.%d", 1+k/8, 1+k%8)
+			gp := &p2px.GWPeer{Genesis: genesisID, UniqueID: p2px.DetUniqueID("cap-script-in", k), IP: ip, NetAddress: fmt.Sprintf("%s:%d", ip, 3500+k)}
+			wantAdmit := len(ins) < c.MaxIn
+			inBefore, outBefore := counts()
+			conn, err := gp.Dial(context.Background(), srv.Addr(), 20*time.Second)
+			if err != nil {
+				if ne := net.Error(nil); errors.As(err, &ne) && ne.Timeout() {
+					gp.Close()
+					return nil, "script-dial-timeout"
+				}
+			}
+			// the arrival's fate: admitted = listed and answering; turned away = the
+			// dial failed or the syncer closed the connection
+			admitted, decided := false, err != nil
+			if err == nil {
+				go conn.Serve(serveQuiet)
+				for deadline := time.Now().Add(10 * time.Second); !decided && time.Now().Before(deadline); time.Sleep(200 * time.Microsecond) {
+					if cerr := conn.Call(&gateway.RPCShareNodes{}, 5*time.Second); cerr != nil {
+						decided = true // closed by the syncer
+					} else if listed(gp.NetAddress) {
+						admitted, decided = true, true
+					}
+				}
+			}
+			if !decided {
+				gp.Close()
+				return nil, "script-arrival-undecided"
+			}
+			what := fmt.Sprintf("step %d of %v: a peer arrived while %d inbound peer(s) (MaxInboundPeers %d) and %d outbound peer(s) were connected (counted by the harness: %d admitted inbound peers not yet dropped)", k, c.Script, inBefore, c.MaxIn, outBefore, len(ins))
+			switch {
+			case wantAdmit && !admitted:
+				gp.Close()
+				return fmt.Errorf("%s and was turned away although an inbound slot was free (dial error: %v)", what, err), ""
+			case !wantAdmit && admitted:
+				gp.Close()
+				return fmt.Errorf("%s and was admitted although no inbound slot was free", what), ""
+			}
+			if admitted {
+				ins = append(ins, inPeer{gp, conn})
+				if outBefore > 0 {
+					cs.Class("script:inbound-admitted-with-outbound-peers-present")
+					if inBefore+outBefore >= c.MaxIn {
+						cs.Class("script:inbound-admitted-with-total-peers>=inbound-cap")
+						cs.NonTrivial()
+					}
+				}
+			} else {
+				gp.Close()
+				cs.Class("script:inbound-turned-away-at-the-cap")
+			}
+		}
+	}
+	// the bursts start without inbound peers
+	for _, p := range ins {
+		p.gp.Close()
+		if !gone(p.gp.NetAddress) {
+			return nil, "inbound-peers-not-removed-after-disconnect"
+		}
+	}
+	ins = nil
+	if len(c.Script) > 0 {
+		cs.Class("script-run")
+	}
+	return nil, ""
+}
+
 var c18CapProp = kit.Prop[CapCase]{
 	ID:   "C18",
-	Rule: "peer caps: MaxInboundPeers 0..4 against 0..24 scripted gateway peers that dial and handshake at the same moment (1..2 waves), MaxOutboundPeers 0..3 against 0..8 listening candidates in the peer store (peer loop every 5 ms) plus 0..6 concurrent explicit Connect calls. Oracle: at every 100 µs sample and at rest the number of connected inbound peers <= MaxInboundPeers and the number of outbound peers opened by the peer loop <= MaxOutboundPeers. Non-trivial = simultaneous handshakes >= 2x(cap+1).",
+	Rule: "peer caps: MaxInboundPeers 0..4 against 0..24 scripted gateway peers that dial and handshake at the same moment (1..2 waves), MaxOutboundPeers 0..3 against 0..8 listening candidates in the peer store (peer loop every 5 ms) plus 0..6 concurrent explicit Connect calls. Before the bursts a drawn script of up to 10 single arrivals and departures (inbound dial, explicit outbound Connect, oldest inbound / outbound peer hangs up) is compared step by step with the model: an arriving peer is admitted iff fewer than MaxInboundPeers inbound peers are connected, outbound peers do not count. Oracle: at every 100 µs sample and at rest the number of connected inbound peers <= MaxInboundPeers and the number of outbound peers opened by the peer loop <= MaxOutboundPeers; after every burst min(MaxInboundPeers, arrivals) inbound peers are connected (slots the limit leaves open are given away, whatever the number of outbound peers). Non-trivial = simultaneous handshakes >= 2x(cap+1).",
 	Assumptions: []string{
 		"explicit Syncer.Connect calls are not checked against MaxOutboundPeers by this code base (only peerLoop calls allowConnect for outbound); they are exercised and observed but the cap is asserted only for connections the syncer opens itself",
 	},
